@@ -12,7 +12,7 @@ BASE = dict(
     prio=0.5, pin=0.1, contstart=0.0, milestone=0.05,
     rleave=0.15, vac=0.15, gleave=0.1, hours=0.0, shift=0.0, tz=0.0, xmid=0.0,
     rdaily=0.0, rweekly=0.0, gdaily=0.0, tdaily=0.0, tweekly=0.0, tlimres=0.0,
-    alap=0.0, taskalap=0.0, dupid=0.0, starts=[MON], dur=[("w", 4), ("w", 6), ("d", 20)], midstart=0.0,
+    alap=0.0, taskalap=0.0, dupid=0.0, galloc=0.0, starts=[MON], dur=[("w", 4), ("w", 6), ("d", 20)], midstart=0.0,
 )
 
 FAMILIES = {
@@ -20,19 +20,23 @@ FAMILIES = {
     "subslot": dict(G=[3600, 3600, 1800, 900, 300], efforts=[7, 10, 20, 25, 45, 50, 90, 100, 135, 200, 61, 119],
                     effs=["1.0", "1.0", "0.5", "0.7", "1.5", "2.0", "0.9", "1.3"], team=0.25, alt=0.15, nres=(1, 2), ntasks=(2, 8),
                     gap=[0, 0, 0, 10, 30, 45, 90], dep=0.6, rleave=0.05, vac=0.05, gleave=0.15, prio=0.6, rdaily=0.1),
-    "hours": dict(hours=0.6, shift=0.3, tz=0.5, xmid=0.4, rleave=0.3, vac=0.2, gleave=0.2, efforts=[120, 480, 960, 1440],
+    "hours": dict(hours=0.6, shift=0.3, tz=0.5, xmid=0.4, rleave=0.3, vac=0.2, gleave=0.3, efforts=[120, 480, 960, 1440],
                   starts=[MON, 1741305600, 1761523200, 1743292800 - 86400 * 6], G=[3600, 3600, 1800, 900], dur=[("w", 4)], ntasks=(1, 4)),
     "limits": dict(rdaily=0.6, rweekly=0.5, gdaily=0.4, tdaily=0.4, tweekly=0.3, tlimres=0.3, group=0.6, nest=0.5, team=0.2,
                    efforts=[240, 480, 960, 1920, 2400], dur=[("w", 1), ("d", 13), ("w", 3)], ntasks=(1, 5),
                    starts=[MON, 1798761600, 1798761600 - 3 * 86400, 1609113600, 1735516800, 1736035200, MON + 13 * 3600], G=[3600, 3600, 1800, 900]),
+    # limits met by tasks that start or end inside a slot (dependencies across resources, sub-slot efforts)
+    "sublimits": dict(rdaily=0.7, rweekly=0.3, gdaily=0.5, tdaily=0.3, group=0.6, nres=(2, 3), dep=0.8, gap=[0, 0, 0, 30, 45],
+                      efforts=[90, 150, 210, 45, 75, 330, 660, 840, 100], ntasks=(2, 5), dur=[("w", 2), ("w", 3)], G=[3600, 3600, 1800],
+                      prio=0.5, team=0.15, rleave=0.0, vac=0.0, gleave=0.0),
     "deps": dict(dupid=0.4, nest=0.6, depth=3, dep=0.8, precedes=0.3, rel=0.5, contdep=0.5, contstart=0.3, onstart=0.25, pin=0.15,
                  gap=[0, 60, 120, 480, 1440, 90, 30], ntasks=(3, 9), hours=0.2),
     "coredeps": dict(dupid=0.3, nest=0.6, depth=3, dep=0.8, precedes=0.3, rel=0.5, contdep=0.5, contstart=0.3, onstart=0.25, pin=0.15,
                      gap=[0, 60, 120, 480, 1440], ntasks=(3, 9), rdaily=0.2, team=0.2, G=[3600, 3600, 1800]),
-    "alap": dict(alap=1.0, dupid=0.5, nest=0.5, dep=0.7, gap=[0, 0, 60, 120, 480], onstart=0.0, precedes=0.1, pin=0.0, milestone=0.0,
+    "alap": dict(alap=1.0, dupid=0.5, nest=0.5, dep=0.7, gap=[0, 0, 60, 120, 480], onstart=0.0, precedes=0.1, pin=0.0, milestone=0.1,
                  efforts=[60, 120, 240, 480, 90, 45], effs=["1.0", "1.0", "0.5", "2.0"], contdep=0.2, ntasks=(2, 6)),
     "taskalap": dict(taskalap=0.5, dep=0.4, onstart=0.0, pin=0.0, efforts=[60, 120, 240, 90], ntasks=(1, 5), milestone=0.0),
-    "trees": dict(dupid=0.3, contstart=0.3, nest=0.8, depth=4, ntasks=(3, 10), dep=0.3, milestone=0.15, pin=0.15, contdep=0.3, unsched=0.3),
+    "trees": dict(group=0.5, galloc=0.2, dupid=0.3, contstart=0.3, nest=0.8, depth=4, ntasks=(3, 10), dep=0.3, milestone=0.15, pin=0.15, contdep=0.3, unsched=0.3),
 }
 
 
@@ -92,6 +96,8 @@ def gen(rng, cfg):
     if rng.random() < cfg["gleave"]:
         a = day0 + rng.randint(0, 6) * 86400 + rng.choice([0, 11 * 3600, 13 * 3600])
         ap["gleaves"].append((a, None if a % 86400 == 0 and rng.random() < 0.5 else a + rng.choice([2 * 3600, 86400, 4 * 3600])))
+        # every leave type blocks; "project" is stored with type index 0
+        ap["gleave_kind"] = rng.choice(["holiday", "project", "project", "sick", "special", "unpaid", "annual", "unemployed"])
     # ---- resources
     nres = rng.randint(*cfg["nres"])
     leaves_r = []
@@ -124,6 +130,7 @@ def gen(rng, cfg):
     else:
         ap["resources"] = leaves_r
     rids = [r["id"] for r in leaves_r]
+    grouped = ap["resources"] and "kids" in ap["resources"][0]
     # ---- tasks
     ntasks = rng.randint(*cfg["ntasks"])
     leaves_t = []          # (path, node)
@@ -150,6 +157,10 @@ def gen(rng, cfg):
             rest = [x for x in rids if x not in n["alloc"]]
             if rest and k == 1 and rng.random() < cfg["alt"]:
                 n["alt"] = [rng.choice(rest)]
+            if grouped and rng.random() < cfg["galloc"]:
+                # a resource group named in an allocation (alone, before or after a worker)
+                n["alloc"] = rng.choice([["grp"], ["grp", rng.choice(rids)], [rng.choice(rids), "grp"]])
+                n.pop("alt", None)
         if rng.random() < cfg["prio"]:
             n["prio"] = rng.choice([100, 300, 500, 700, 900])
         return n
@@ -258,8 +269,10 @@ def gen(rng, cfg):
             if not covered and rng.random() < 0.6:
                 n["end"] = endday - rng.randint(0, 3) * 86400 + 17 * 3600
         for p, c in conts:
-            if rng.random() < 0.3 and p not in has_succ:
-                c["end"] = endday + 17 * 3600
+            if rng.random() < 0.35 and p not in has_succ:
+                # container deadlines earlier than the deadlines of tasks outside: a child whose successor
+                # lies outside the container is then bounded by the container, not by the successor
+                c["end"] = endday - rng.choice([0, 0, 2, 4, 7, 9]) * 86400 + 17 * 3600
     if cfg["taskalap"]:
         has_succ = set()
         for p, n in allnodes:
